@@ -19,9 +19,21 @@ Fixpoint up_of (t : list (string * option purl)) (u : string) : option purl :=
 
 (* one end-session request: the router it is sent to, the issuer the provider derives
    for it (static, or from Host / Forwarded), the key ids the storage publishes while it is
-   served (keys rotate between requests), the presented hint, the parameters *)
-Record ereq := { r_router : router; r_issuer : string; r_keys : list string; r_tok : tok;
-                 r_client : string; r_uri : string; r_state : string; r_fault : efault }.
+   served (keys rotate between requests), and what it carries, in the order of http.Request.Form
+   (ParseForm: the values of the BODY first, then those of the QUERY): r_toks = the values of
+   id_token_hint (TNone = an empty value), r_form = EVERY other parameter as sent - the known
+   ones (client_id, post_logout_redirect_uri, state), possibly repeated with differing values, and
+   any other name (logout_hint, ui_locales, unknown names). *)
+Record ereq := { r_router : router; r_issuer : string; r_keys : list string; r_toks : list tok;
+                 r_form : list (string * string); r_fault : efault }.
+
+(* the schema decoder fills a string field with the LAST value of its name ("" if absent) *)
+Definition form_last (k : string) (f : list (string * string)) : string := last (values_of k f) "".
+
+Definition r_tok (x : ereq) : tok := last (r_toks x) TNone.
+Definition r_client (x : ereq) : string := form_last "client_id" (r_form x).
+Definition r_uri (x : ereq) : string := form_last "post_logout_redirect_uri" (r_form x).
+Definition r_state (x : ereq) : string := form_last "state" (r_form x).
 
 (* the request as the validator sees it, when hints are verified with key set [keys] and
    supported algorithms [algs] *)
@@ -69,7 +81,8 @@ Definition spec_esreq (opts : list popt) (x : ereq) : esreq :=
 Inductive input :=
 | IEnd (default_uri : string) (ts : tsfr) (opts : list popt) (cs : list lclient) (t : tables) (reqs : list ereq).
 
-Inductive observed := OEnd (xs : list eout).
+(* ONoProvider: op.NewProvider refused the configuration (no endpoint exists) *)
+Inductive observed := OEnd (xs : list eout) | ONoProvider.
 
 (* each answer depends on its own request only *)
 Definition model (i : input) : observed :=
@@ -110,7 +123,9 @@ Section Spec.
     | Some gs => existsb (fun g => match pmatch g u with PMatch => true | _ => false end) gs
     end.
 
-  (* loc is u itself, or u with the state appended: decoding loc's query gives the state back *)
+  (* loc is u itself, or u with the state appended: decoding loc's query gives, under the name
+     "state", exactly u's own values (if it has any) with the supplied state added - the state of
+     THIS request, once, and nobody else's *)
   Definition reaches (u state loc : string) : bool :=
     if String.eqb state "" then String.eqb loc u
     else match uparse u with
@@ -122,7 +137,9 @@ Section Spec.
                let '(qs, fr) := cut "#" rest in
                option_eqb String.eqb fr (p_frag p) &&
                match parse_query qs with
-               | Some pairs => string_in state (values_of "state" pairs)
+               | Some pairs =>
+                   list_eqb String.eqb (values_of "state" pairs)
+                            (values_of "state" (p_le p) ++ state :: values_of "state" (p_gt p))
                | None => false
                end
            end
@@ -185,6 +202,7 @@ Definition spec (i : input) (o : observed) : bool :=
   match i, o with
   | IEnd d ts opts cs t reqs, OEnd outs =>
       spec_list (fun x => spec_out (pm_of (t_pm t)) (up_of (t_up t)) d ts cs (spec_esreq opts x)) reqs outs
+  | _, ONoProvider => true   (* nobody is redirected and no session is terminated *)
   end.
 
 Definition pair_eqb (a b : string * string) : bool :=
@@ -199,7 +217,7 @@ Definition eout_eqb (a b : eout) : bool :=
   end.
 
 Definition obs_eqb (a b : observed) : bool :=
-  match a, b with OEnd x, OEnd y => list_eqb eout_eqb x y end.
+  match a, b with OEnd x, OEnd y => list_eqb eout_eqb x y | ONoProvider, ONoProvider => true | _, _ => false end.
 
 (* decision-path class of one answer; 0 = hint rejected at the first guard *)
 Definition path1 (q : esreq) (x : eout) : nat :=
@@ -225,7 +243,7 @@ Fixpoint path_list (opts : list popt) (reqs : list ereq) (outs : list eout) : na
   end.
 
 Definition path (i : input) (o : observed) : nat :=
-  match i, o with IEnd _ _ opts _ _ reqs, OEnd outs => path_list opts reqs outs end.
+  match i, o with IEnd _ _ opts _ _ reqs, OEnd outs => path_list opts reqs outs | _, ONoProvider => 0 end.
 
 Definition case_mismatches := run_mismatches model obs_eqb.
 Definition case_violations := run_violations spec.
